@@ -63,7 +63,7 @@ def make_worker(tier):
                     S.add("outcomes", "tree-differs")
                     S.violation("C07.tree", "C07.tree/differs/" + classify(label, diffs), inp, expected=common.jsonable(_plain(exp)), actual={"diffs": diffs[:8], "tree": tree})
                 else:
-                    S.add("outcomes", "ok")
+                    S.add("outcomes", ("ok", label))
             base = results.get("canonical")
             if base and base[1] is not None:
                 for variant, (text, tree, err) in results.items():
